@@ -14,7 +14,7 @@ KIND = {
     "branched": "continuity_branched", "handoff": "continuity_handoff_created",
 }
 UNKNOWN_IDS = [99, 98, 97, 96]     # fake uuid, "../events", "", "a/b"  (harness StoreEnv::thread_id)
-READ_ONLY = {"cut_points", "status", "cursor_status", "selection_status", "replay"}
+READ_ONLY = {"cut_points", "status", "cursor_status", "selection_status", "replay", "compile"}
 COMPACTION = {"checkpoint", "cut_points", "status", "auto", "schedule"}
 LINEAGE = {"branch", "handoff"}
 
@@ -34,8 +34,12 @@ def concretise(o, unknown=99):
     op, x, y, z = o["op"], o["x"], o["y"], o["z"]
     if op == "message":
         return {"op": "message", "t": t}
-    if op in ("run_spawned", "run_ended"):
+    if op == "run_ended":
+        return {"op": op, "t": t, "m_seq": x, "s": y, "with_text": True}
+    if op == "run_spawned":
         return {"op": op, "t": t, "m_seq": x, "s": y}
+    if op == "compile":
+        return {"op": op, "t": t, "m_seq": x, "s": 9}
     if op == "side_effects":
         return {"op": op, "t": t, "m_seq": x, "s": 1}
     if op == "cursor_update":
@@ -235,6 +239,12 @@ def compare_resp(o, r, ret, newf):
     elif op == "replay":
         if len(ret) != r["len"] or [f["seq"] for f in ret] != list(range(r["len"])):
             return {"expected": r, "got": [f["seq"] for f in ret]}
+    elif op == "compile":
+        got = project_compile(ret)
+        exp = {"from_seq": r["from_seq"], "refs": r["refs"], "strategy": r["strategy"],
+               "items": [x for m, rp in zip(r["msgs"], r["replies"]) for x in ([["m", m]] + ([["r", f"reply-{rp}"]] if rp else []))]}
+        if got != exp:
+            return {"expected": exp, "got": got}
     elif op in LINEAGE:
         got = {"cut": ret["seq"], "msg": ref_seq(ret["message_id"])}
         if got != {"cut": r["cut"], "msg": r["msg"]}:
@@ -281,4 +291,26 @@ def run_transitions(v, wd, cfg, op_filter, post_for=None, timeout=3000, shards=1
         c = by_id[res["id"]]
         for k, (r, (o, e)) in enumerate(zip(res["trans"], c["_meta"])):
             out.append((c, c["_gc"], k, o, e, r))
+    return out
+
+
+def project_compile(ret):
+    """compile answer -> {from_seq, refs (to_seqs), strategy, items [[m, seq] | [r, text]]} from the bundle artifact"""
+    b = ret.get("bundle") or {}
+    items = []
+    refs = []
+    for it in b.get("items", []):
+        if it.get("type") == "summary_ref":
+            note = it.get("note") or ""
+            m = re.search(r"to_seq=(\d+)", note)
+            refs.append(int(m.group(1)) if m else None)
+        elif it.get("thread_seq") is not None:
+            items.append(["m", it["thread_seq"]])
+        else:
+            items.append(["r", it.get("content")])
+    out = {"from_seq": ret.get("from_seq"), "refs": refs, "strategy": ret.get("compiler_strategy"), "items": items}
+    # the logged decision must name the same checkpoints, and the bundle's own source the same cut
+    dec = [c["to_seq"] for c in ret.get("compaction_checkpoints", [])]
+    if dec != refs or (b.get("source") or {}).get("from_seq") != ret.get("from_seq") or (b.get("compiler") or {}).get("strategy") != ret.get("compiler_strategy"):
+        out["inconsistent"] = {"decision": dec, "bundle_source": b.get("source"), "bundle_compiler": b.get("compiler")}
     return out
